@@ -1,7 +1,7 @@
 #!/bin/bash
 # usage: confirm_mutant.sh <dir with patch.diff demo.diff> -> prints CONFIRMED / REJECTED with reasons
 # Works in a scratch worktree of the pinned base commit; removes it afterwards.
-D="$1"; BASE=bbf5222
+D="$1"; BASE=${BASE:-bbf5222}; PATCH=${PATCH:-patch.diff}
 WT=/tmp/confirm/wt.$$; mkdir -p /tmp/confirm
 export CARGO_TARGET_DIR=/tmp/confirm/target CARGO_NET_OFFLINE=true
 git -C /repo worktree add --detach "$WT" $BASE >/dev/null 2>&1 || { echo "REJECTED $D: worktree"; exit 1; }
@@ -10,11 +10,11 @@ trap cleanup EXIT
 cd "$WT"
 run() { cargo nextest run --workspace --no-fail-fast --offline --test-threads 8 2>&1; }
 flaky='closest_nodes::tests::simulation|concurrent_put_mutable_different'
-git apply "$D/demo.diff" || { echo "REJECTED $D: demo.diff does not apply"; exit 1; }
+(git apply "$D/demo.diff" 2>/dev/null || patch -s -p1 -F3 < "$D/demo.diff") || { echo "REJECTED $D: demo.diff does not apply"; exit 1; }
 o1=$(run); f1=$(echo "$o1" | grep -E "^\s+FAIL" | grep -vE "$flaky" | sort -u)
 if [ -n "$f1" ]; then echo "REJECTED $D: demo fails WITHOUT the change: $f1"; exit 1; fi
 echo "$o1" | grep -q "Summary" || { echo "REJECTED $D: build failed without change"; echo "$o1" | tail -5; exit 1; }
-git apply "$D/patch.diff" || { echo "REJECTED $D: patch.diff does not apply"; exit 1; }
+git apply "$D/$PATCH" || { echo "REJECTED $D: patch.diff does not apply"; exit 1; }
 o2=$(run); echo "$o2" | grep -q "Summary" || { echo "REJECTED $D: build failed with change"; echo "$o2" | tail -5; exit 1; }
 f2=$(echo "$o2" | grep -E "^\s+FAIL" | grep -vE "$flaky" | sed 's/.*\] *//' | sort -u)
 demo_fail=$(echo "$f2" | grep -i demo)
